@@ -51,6 +51,12 @@ Definition in_region_shapeb (s : shape) (q : point) : bool :=
   | Path ps w => existsb (fun e => CC.near_segb w (fst e) (snd e) (spt q)) (CS.chain (map spt ps))
   end.
 
+Definition in_region_shape_nzb (s : shape) (q : point) : bool :=
+  match s with
+  | Polygon ps => CC.in_region_nzb (map spt ps) (spt q)
+  | _ => in_region_shapeb s q
+  end.
+
 (** * Shapes modulo representation *)
 Definition point_eqb (a b : point) : bool := (px a =? px b) && (py a =? py b).
 Fixpoint points_eqb (a b : list point) : bool :=
@@ -374,3 +380,13 @@ Definition unambiguous_viewb (lab : shape -> option point) (ev : list velem) : b
     end) ev.
 Definition labels_unambiguous_atb (lab : shape -> option point) (L : library) : bool :=
   forallb (unambiguous_viewb lab) (views_of L).
+Definition unambiguous_view_nzb (lab : shape -> option point) (ev : list velem) : bool :=
+  forallb (fun v =>
+    match v_net v, lab (v_shape v) with
+    | Some n, Some p =>
+      forallb (fun v' => negb ((v_lnum v' =? v_lnum v) && in_region_shape_nzb (v_shape v') p) ||
+                         ostring_eqb (option_map lower (v_net v')) (Some (lower n))) ev
+    | _, _ => true
+    end) ev.
+Definition labels_unambiguous_nz_atb (lab : shape -> option point) (L : library) : bool :=
+  forallb (unambiguous_view_nzb lab) (views_of L).
